@@ -322,7 +322,10 @@ def register_public(R):
             tr = c.trace
             sub = calls(tr, 'CRTTransferManager._submit_transfer')
             vals = [e for e in tr if e.kind == 'call' and '._validate_' in e.name]
-            okk = len(sub) == 1 and [e.name.split('.')[-1] for e in vals] == validators and all(index_of(tr, v) < index_of(tr, sub[0]) for v in vals)
+            # (which validations exist is not a listed property, except the allow-list of C15; what is required: nothing is
+            #  submitted before every validation that does run has passed, and the allow-list check is among them)
+            known = [e for e in vals if e.name.endswith('_validate_all_known_args')]
+            okk = len(sub) == 1 and len(known) == 1 and all(index_of(tr, v) < index_of(tr, sub[0]) for v in vals)
             out = {'validates_first_then_submits_exactly_one_transfer_of_the_right_type': B(bool(okk and sub[0].extra['env']['request_type'] == rtype))}
             if okk:
                 ca = sub[0].extra['env']['call_args']
